@@ -600,10 +600,16 @@ def t_unknown_attribute(ctx, insitu):
         return _mk(ctx, "unknown-attribute", "insitu", [(e.end_kw.start, 0, "UNIQUE\n  %s : %s;\n" % (ctx.name("u"), z))],
                    [{"code": "UNKNOWN_ATTR_IN_ENTITY", "args": [z, e.name]}], "undefined attribute", "entity-unique", sch.decls.index(e))
     p, c, x = ctx.name("e"), ctx.name("e"), ctx.name("a")
-    form = ctx.rnd.choice(["unique", "dot"])
+    form = ctx.rnd.choice(["unique", "dot", "unique-qualified", "unique-qualified"])
     if form == "unique":
         txt = "ENTITY %s;\n  %s : INTEGER;\nUNIQUE\n  %s : %s;\nEND_ENTITY;" % (p, x, ctx.name("u"), z)
         exp = [{"code": "UNKNOWN_ATTR_IN_ENTITY", "args": [z, p]}]
+    elif form == "unique-qualified":
+        # the qualified form SELF\super.attr in a UNIQUE rule of a (sub-)subtype: the rule is looked up qualified and unqualified
+        m = ctx.name("e")
+        txt = ("ENTITY %s;\n  %s : INTEGER;\nEND_ENTITY;\nENTITY %s\n  SUBTYPE OF (%s);\nEND_ENTITY;\nENTITY %s\n  SUBTYPE OF (%s);\nUNIQUE\n  %s : SELF\\%s.%s;\nEND_ENTITY;"
+               % (p, x, m, p, c, m, ctx.name("u"), p, z))
+        exp = [{"code": "UNKNOWN_ATTR_IN_ENTITY", "args": [z, A(p, m, c)]}]
     else:
         r = ctx.name("r")
         txt = ("ENTITY %s;\n  %s : INTEGER;\nEND_ENTITY;\nENTITY %s;\n  %s : %s;\nDERIVE\n  %s : INTEGER := %s.%s;\nEND_ENTITY;"
